@@ -42,9 +42,26 @@
      made in state Gk, changes the value of n and passes the gate as Gk is
      configured (a re-add with allow_mutations on; a mutate / rollback that
      allow_mutations or the callback of Gk authorises for that very change);
-     repeat (i, o) k = the call o made k times in a row on genome i. *)
+     repeat (i, o) k = the call o made k times in a row on genome i.
+     The approval callback is arbitrary user code: besides answering it may
+     RAISE or CALL BACK into the genome that is consulting it.  behaviour =
+     what it does besides answering, a function of the proposed change: XNone
+     | XRaise k (exception class k: Exception and BaseException subclasses
+     alike) | XCall n' v' (it calls mutate(n', v') on the consulting genome,
+     then answers).  act_of beh G n v r = what is acted out when mutate(n, v)
+     with reason r is called in state G: nothing unless the gate gets as far
+     as asking the callback (gene exists, allow_mutations off, a callback
+     installed) on a call the user makes (mutate / rollback_mutation), one
+     level deep.  g_mutate_x / g_step_x / xstep / xrun beh = the calls and
+     histories with such approvers; an xstep ends XO r (returned), XRaised k
+     (the approver's exception reached the caller, who handles it and goes on
+     with the history) or XNested b nb (returned b; the approver's own mutate
+     returned nb); quiet beh = the approver only answers.
+     clock = (step, last reading, script): what datetime.now() of the module
+     returns; trun beh W c ops = the history run under clock c: (world, clock
+     afterwards, the readings each call made). *)
 From Coq Require Import ZArith List Bool.
-From Verif Require Import C20.Model C20.Proofs.
+From Verif Require Import C20.Model C20.Proofs C20.ProofsApprover.
 Import ListNotations.
 Open Scope Z_scope.
 
@@ -456,3 +473,123 @@ Theorem c20_wf_invariant :
   forall a c rate genes ops, Forall wf (run [init_genome_r a c rate genes] ops).
 Proof. exact wf_invariant_proof. Qed.
 Print Assumptions c20_wf_invariant.
+
+(* ---- 8. approvers that raise or call back ---------------------------------- *)
+
+(* A locked genome stays gated whatever its approvers do besides answering:
+   with allow_mutations off and never switched on, after ANY history in which
+   approvers raise (any exception class, the caller handling it and going on)
+   or call back into the genome before they answer, every stored value of
+   genome i is its old value overwritten by exactly the log entries marked
+   approved, and each of those was approved, for that specific change, by the
+   verdict of a callback installed on genome i at some moment of the history.
+   No state survives a raising or re-entrant approver that would let a later
+   mutate through unasked. *)
+Theorem c20_locked_genome_stays_gated :
+  forall beh W ops i G,
+    nth_error W i = Some G -> allow G = false -> never_enabled (ops_for i ops) ->
+    exists G' newlog,
+      nth_error (xrun beh W ops) i = Some G' /\ allow G' = false /\ mlog G' = mlog G ++ newlog /\
+      Forall (entry_ok_in (installed G (ops_for i ops))) newlog /\
+      forall n v, stored G n = Some v -> stored G' n = Some (replay newlog n v).
+Proof. exact approver_gated_proof. Qed.
+Print Assumptions c20_locked_genome_stays_gated.
+
+(* ... so when no callback ever installed approves anything, no stored value
+   changes and everything logged is unapproved -- however the approvers fail
+   and whatever they themselves try to change *)
+Theorem c20_approvers_that_approve_nothing_change_nothing :
+  forall beh W ops i G,
+    nth_error W i = Some G -> allow G = false -> never_enabled (ops_for i ops) ->
+    (forall c, installed G (ops_for i ops) c -> cb_denies c) ->
+    exists G' newlog,
+      nth_error (xrun beh W ops) i = Some G' /\ mlog G' = mlog G ++ newlog /\
+      Forall (fun m => m_approved m = false) newlog /\
+      forall n v, stored G n = Some v -> stored G' n = Some v.
+Proof. exact approver_nothing_approved_proof. Qed.
+Print Assumptions c20_approvers_that_approve_nothing_change_nothing.
+
+(* a call that ends with the approver's exception has changed nothing at all
+   (no value, no log entry, no configuration, no other genome), and it is a
+   mutate / rollback of an existing gene of a locked genome with a callback,
+   whose approver raises on exactly that proposal *)
+Theorem c20_raising_approver_changes_nothing :
+  forall beh W i G o k W',
+    nth_error W i = Some G -> xstep beh W (i, o) = (W', XRaised k) ->
+    W' = W /\
+    exists n v r, act_of beh G n v r = XRaise k /\ stored G n <> None /\ allow G = false /\ cb G <> None /\
+      (o = OMutate n v /\ r = RUser \/
+       exists m, o = ORollback n /\ last_approved (mlog G) n = Some m /\ v = m_orig m /\ r = RRollback).
+Proof. exact raising_approver_proof. Qed.
+Print Assumptions c20_raising_approver_changes_nothing.
+
+(* an approver that calls mutate(n', v') on another gene (or whose own call is
+   refused) before it answers: exactly the two calls made one after the other,
+   each through the gate *)
+Theorem c20_reentrant_approver_is_two_gated_calls :
+  forall beh G n v r n' v',
+    act_of beh G n v r = XCall n' v' ->
+    n' <> n \/ snd (g_mutate G n' v' RUser) = false ->
+    g_mutate_x beh G n v r =
+    (fst (g_mutate (fst (g_mutate G n' v' RUser)) n v r),
+     RetN (snd (g_mutate (fst (g_mutate G n' v' RUser)) n v r)) (snd (g_mutate G n' v' RUser))).
+Proof. exact mutate_x_call_seq. Qed.
+Print Assumptions c20_reentrant_approver_is_two_gated_calls.
+
+(* an approver whose own, approved, call changes the very gene it is being
+   asked about: both changes went through the gate and are logged, the inner
+   one first; the outer entry records the value the gene had when the outer
+   call was made (old), which is what a later rollback restores *)
+Theorem c20_approver_changing_the_gene_in_question :
+  forall beh G n v r v' old,
+    act_of beh G n v r = XCall n v' -> stored G n = Some old ->
+    approved_by G n old v' RUser = true ->
+    let ok := approved_by G n old v r in
+    let G' := fst (g_mutate_x beh G n v r) in
+    snd (g_mutate_x beh G n v r) = RetN ok true /\
+    mlog G' = mlog G ++ [mkM n old v' RUser true; mkM n old v r ok] /\
+    stored G' n = Some (if ok then v else v') /\
+    (forall k, k <> n -> stored G' k = stored G k).
+Proof. exact same_gene_callback_proof. Qed.
+Print Assumptions c20_approver_changing_the_gene_in_question.
+
+(* approvers that only answer: the histories of sections 1-7 *)
+Theorem c20_quiet_approvers_plain_histories :
+  forall beh ops W, quiet beh -> xrun beh W ops = run W ops.
+Proof. exact quiet_xrun_proof. Qed.
+Print Assumptions c20_quiet_approvers_plain_histories.
+
+(* lineage isolation with such approvers (an approver calls back into the
+   genome that consults it, never into a relative) *)
+Theorem c20_lineage_isolation_with_approvers :
+  forall beh ops W i G,
+    nth_error W i = Some G ->
+    nth_error (xrun beh W ops) i = Some (g_run_x beh G (ops_for i ops)).
+Proof. exact xrun_proj. Qed.
+Print Assumptions c20_lineage_isolation_with_approvers.
+
+Theorem c20_repetition_is_iteration_with_approvers :
+  forall beh k t W i o, snd (fst (xrep_compact beh t W i o k)) = xrun beh W (repeat (i, o) k).
+Proof. exact xrep_compact_world. Qed.
+Print Assumptions c20_repetition_is_iteration_with_approvers.
+
+(* ---- 9. the clock ----------------------------------------------------------- *)
+
+(* The module reads the clock (constructor, set_expression) and never looks at
+   the readings again: under ANY two clocks -- standing still, stepping back,
+   running backwards -- a history leaves the same lineage (values, logs in
+   call order, hashes; so rollback's "last approved mutation" is the last one
+   made, never the one with the greatest timestamp) and every call makes the
+   same number of readings. *)
+Theorem c20_clock_irrelevant :
+  forall beh W ops c1 c2,
+    fst (fst (trun beh W c1 ops)) = fst (fst (trun beh W c2 ops)) /\
+    map (@length Z) (snd (trun beh W c1 ops)) = map (@length Z) (snd (trun beh W c2 ops)).
+Proof. exact clock_irrelevant_proof. Qed.
+Print Assumptions c20_clock_irrelevant.
+
+(* ... namely the lineage of the clock-free semantics *)
+Theorem c20_timed_history_is_history :
+  forall beh ops W c, fst (fst (trun beh W c ops)) = xrun beh W ops.
+Proof. exact trun_world. Qed.
+Print Assumptions c20_timed_history_is_history.
